@@ -224,3 +224,12 @@ def assemble_output_recurse(dtype: Dtype, values: dict) -> np.ndarray:
             for name, field_dtype in dtype._fields().items()
         }
         return dtype._assemble_output(fields)
+
+
+def statically_empty(x: Array) -> bool:
+    """Whether ``x`` is known at trace time to have no elements.
+
+    Symbolic and unknown dimensions are not inspected: an array is statically empty
+    only if one of its dimensions is the integer 0.
+    """
+    return any(isinstance(dim, int) and dim == 0 for dim in x._static_shape)
